@@ -28,6 +28,19 @@ func VF_C09_Local() {
 			return errors.New("fail")
 		})
 	}
+	// operations of another replica applied before the transaction (its clock is ahead)
+	remoteLamport := uint64(0)
+	if vf.Choice("remote-before", 2) == 1 {
+		rRaw, _ := newList(vfBase("k", model.TypeOfDatatype_LIST, "BBBBBBBBBBBBBBBB"), nil, nil)
+		r := rRaw.(*list)
+		for i := 0; i < 4; i++ {
+			_, _ = r.Insert(0, "r")
+		}
+		rops := r.CreatePushPullPack().Operations
+		_, e := l.ReceiveRemoteModelOperations(rops, false)
+		vf.Assert(e == nil, "C09 remote operations are applied")
+		remoteLamport = rops[len(rops)-1].ID.Lamport
+	}
 	before := append([]interface{}{}, listJSON(l)...)
 	n0, seq0 := pendingOps(l)
 	id0 := l.GetOpID().Clone()
@@ -89,6 +102,8 @@ func VF_C09_Local() {
 	vf.Assert(err == nil, "C09 datatype usable after the transaction")
 	n2, seq2 := pendingOps(l)
 	vf.Assert(n2 == n1+1 && seq2 == seq1+1, "C09/C15 next operation continues the numbering")
+	last := l.CreatePushPullPack().Operations[n2-1]
+	vf.Assert(last.ID.Lamport > remoteLamport && last.ID.Lamport > id0.Lamport, "C15 a new local operation is ordered after every operation the replica has applied")
 }
 
 // VF_C09_Remote: a replica applies all operations of a delivered unit or, if
